@@ -233,6 +233,14 @@ func (w *world) pollCmd(t fataler, s *session, allowExpunge bool, failing string
 	if failing != "" {
 		cmd, allowExpunge = failing, false
 	}
+	// command names are case-insensitive
+	switch s.tagN % 4 {
+	case 1:
+		cmd = strings.ToLower(cmd[:strings.IndexAny(cmd+" ", " ")]) + cmd[strings.IndexAny(cmd+" ", " "):]
+	case 2:
+		w := cmd[:strings.IndexAny(cmd+" ", " ")]
+		cmd = w[:1] + strings.ToLower(w[1:]) + cmd[len(w):]
+	}
 	pendingAtStart := len(s.pending)
 	var injected chan struct{}
 	if inject != nil {
